@@ -1036,6 +1036,7 @@ func (c *compiler) compileSwitchStatement(v *ast.SwitchStatement, needResult boo
 	}
 
 	var enter *enterBlock
+	var enterPc int
 	var db *binding
 	if scopeDeclared {
 		c.block = &block{
@@ -1044,6 +1045,7 @@ func (c *compiler) compileSwitchStatement(v *ast.SwitchStatement, needResult boo
 			needResult: needResult,
 		}
 		enter = &enterBlock{}
+		enterPc = len(c.p.code)
 		c.emit(enter)
 		// create anonymous variable for the discriminant
 		bindings := c.scope.bindings
@@ -1116,7 +1118,18 @@ func (c *compiler) compileSwitchStatement(v *ast.SwitchStatement, needResult boo
 	}
 	if enter != nil {
 		c.leaveScopeBlock(enter)
-		enter.stackSize--
+		if c.scope.dynLookup || db.inStash {
+			// the discriminant binding lives in the stash (e.g. because of a direct eval):
+			// move the value there from the stack, like the parameter of a catch block
+			c.p.code[enterPc] = &enterCatchBlock{
+				names:     enter.names,
+				stashSize: enter.stashSize,
+				stackSize: enter.stackSize,
+			}
+		} else {
+			// the discriminant is already on the stack, in the slot of the first binding
+			enter.stackSize--
+		}
 		c.popScope()
 	}
 	c.leaveBlock()
